@@ -83,6 +83,17 @@ structure DirEnt where
   tname : Name
   deriving DecidableEq, Repr
 
+/-- A file saved in the "extra directory" of a declaration, `ups_db/<flavor>/<name>/<version>/<path>` of a stack
+(`declare(..., externalFileList=[...])`, `eups declare -L`); `content` identifies what was copied. -/
+structure Extra where
+  stack : Nat
+  flav : Flav
+  name : Name
+  ver : Ver
+  path : Str
+  content : Nat
+  deriving DecidableEq, Repr
+
 /-! ## keys -/
 
 def Decl.hasKey (d : Decl) (s : Nat) (n : Name) (v : Ver) (f : Flav) : Bool :=
@@ -204,12 +215,15 @@ inductive Eff
   | unassign (s : Nat) (t : Tag) (n : Name) (f : Flav)
   /-- `shutil.rmtree(product.dir)` (`Eups.remove`) -/
   | rmTree (d : Dir)
+  /-- `os.makedirs(dirName)` + `utils.copyfile(fileNameIn, pathOut)` into the extra directory (`Eups.declare`) -/
+  | copyExtra (x : Extra)
   deriving DecidableEq, Repr
 
 /-- the effect starts with a `Database` mutation (the points where a command can be killed "between the
 database update and the cache update") -/
 def Eff.isDb : Eff → Bool
   | .rmTree _ => false
+  | .copyExtra _ => false
   | _ => true
 
 /-- `Database.assignTag` raises `ProductNotFound` unless the version file declares the flavor -/
@@ -229,6 +243,7 @@ def applyDb : Eff → Spec → Spec
   | .assign s t n f v, c => c.assign s t n f v
   | .unassign s t n f, c => c.delTag s t n f
   | .rmTree _, c => c
+  | .copyExtra _, c => c
 
 /-- `ProductFamily.removeVersion` + `ProductStack.removeProduct`: drop the version and the tags naming it
 (`fixed`; the pinned code scanned `versions.items()` and dropped none — D1), then drop the family, tags
@@ -247,6 +262,7 @@ def applyMemG (fixed : Bool) : Eff → Spec → Spec
   | .assign s t n f v, m => m.assign s t n f v
   | .unassign s t n f, m => m.delTag s t n f
   | .rmTree _, m => m
+  | .copyExtra _, m => m
 
 /-- the tree as it is: `ProductFamily.removeVersion` with the D1 repair -/
 def applyMem : Eff → Spec → Spec := applyMemG true
@@ -261,6 +277,7 @@ def Eff.saves (m : Spec) : Eff → Option (Nat × Flav)
   | .assign s _ _ f _ => some (s, f)
   | .unassign s t n f => if m.hasTag s t n f then some (s, f) else none
   | .rmTree _ => none
+  | .copyExtra _ => none
 
 /-! ## processes -/
 
@@ -278,6 +295,7 @@ structure Proc where
   mem0 : Spec
   dirs : List DirEnt
   tr : List Eff
+  extras : List Extra := []
   deriving Repr
 
 def Proc.db (p : Proc) : Spec := p.tr.foldl (fun c e => applyDb e c) p.db0
@@ -338,6 +356,8 @@ structure DeclareArgs where
   tag : Option Tag
   force : Bool
   noaction : Bool
+  /-- externalFileList: (path below the extra directory, what is copied there) -/
+  ext : List (Str × Nat) := []
   deriving Repr
 
 /-- the "Delete all old occurrences of this tag" loop -/
@@ -358,12 +378,12 @@ inductive Redeclare
   | refuse
   deriving DecidableEq, Repr
 
-def redeclare (old : Option Decl) (d : Dir) (table : Table) (hasTag force : Bool) : Redeclare :=
+def redeclare (old : Option Decl) (d : Dir) (table : Table) (hasTag force : Bool) (extDiff : Bool := false) : Redeclare :=
   match old with
   | none => .write
   | some o =>
     if force then .write else
-    if o.dir != d || (table == .default && o.table == .none) then
+    if o.dir != d || (table == .default && o.table == .none) || extDiff then
       (if hasTag then .keep else .refuse)
     else .keep
 
@@ -413,8 +433,21 @@ def resolveDeclare (nst : Nat) (a : DeclareArgs) (p : Proc) : Option Resolved :=
     if table == .default && !(p.tableExists d a.name) then none else   -- "tablefile does not exist"
     some ⟨d, table, target⟩
 
-/-- the part of `declare` that acts (l.2634-2702): the version record, then the tag -/
-def declareFinish (nst : Nat) (a : DeclareArgs) (r : Resolved) (tag : Option Tag) (rd : Redeclare) (p : Proc) :
+/-- "check external files" (l.2568-2588): the extra directory of the declaration exists and its content is not
+what the call lists — a file to add, a file with other content, a file that is not being replaced -/
+def extDiff (p : Proc) (a : DeclareArgs) (target : Nat) : Bool :=
+  let mine := p.extras.filter fun x => x.stack == target && x.flav == a.self && x.name == a.name && x.ver == a.ver
+  !mine.isEmpty &&
+    (a.ext.any (fun e => !(mine.any fun x => x.path == e.1 && x.content == e.2)) ||
+     mine.any (fun x => !(a.ext.any fun e => e.1 == x.path)))
+
+/-- "Save extra files in the extra directory" (l.2706-2722), past the dry-run guards -/
+def saveExtras (a : DeclareArgs) (target : Nat) : List (Str × Nat) → Proc → Proc
+  | [], p => p
+  | e :: es, p => saveExtras a target es (p.emit (.copyExtra ⟨target, a.self, a.name, a.ver, e.1, e.2⟩))
+
+/-- the version record, then the tag (l.2634-2702) -/
+def declareCore (nst : Nat) (a : DeclareArgs) (r : Resolved) (tag : Option Tag) (rd : Redeclare) (p : Proc) :
     Outcome × Proc :=
   let p1 : Proc :=
     if rd == .write && !a.noaction then
@@ -426,12 +459,20 @@ def declareFinish (nst : Nat) (a : DeclareArgs) (r : Resolved) (tag : Option Tag
     if a.noaction then (.ok, p1) else
     assignTag a.self t a.name a.ver [r.target] (purgeAll nst a.self t a.name (allStacks nst) p1)
 
+/-- the part of `declare` that acts (l.2634-2724): the version record, the tag, then the extra files -/
+def declareFinish (nst : Nat) (a : DeclareArgs) (r : Resolved) (tag : Option Tag) (rd : Redeclare) (p : Proc) :
+    Outcome × Proc :=
+  match declareCore nst a r tag rd p with
+  | (.ok, p2) => if a.noaction then (.ok, p2) else (.ok, saveExtras a r.target a.ext p2)
+  | x => x
+
 def declare (nst : Nat) (a : DeclareArgs) (p : Proc) : Outcome × Proc :=
   match resolveDeclare nst a p with
   | none => (.refused, p)
   | some r =>
     let tag := declareTag nst a p.mem
-    match redeclare (p.mem.findDecl r.target a.name a.ver a.self) r.d r.table tag.isSome a.force with
+    match redeclare (p.mem.findDecl r.target a.name a.ver a.self) r.d r.table tag.isSome a.force
+        (extDiff p a r.target) with
     | .refuse => (.refused, p)                     -- "Redeclaring ...; specify force to proceed"
     | rd => declareFinish nst a r tag rd p
 
@@ -570,6 +611,7 @@ inductive Msg
   | untag (t : Tag)                          -- "eups undeclare --tag t n"
   | removing (v : Ver) (s : Nat)             -- "Removing n v from version list for <stack>"
   | rmrf (d : Dir)                           -- "rm -rf <dir>"
+  | copy (path : Str)                        -- "cp <file> <extra directory>/<path>"
   deriving DecidableEq, Repr
 
 /-- does `unassignTag` get as far as its dry-run message -/
@@ -605,10 +647,11 @@ def wouldDo (nst : Nat) (c : Cmd) (p : Proc) : List Msg :=
     | none => []
     | some r =>
       let tag := declareTag nst a m
-      match redeclare (m.findDecl r.target a.name a.ver a.self) r.d r.table tag.isSome a.force with
+      match redeclare (m.findDecl r.target a.name a.ver a.self) r.d r.table tag.isSome a.force
+          (extDiff p a r.target) with
       | .refuse => []
       | rd => (if rd == .write then [.declaring r.target tag] else []) ++
-              (match tag with | some t => [.assigning t] | none => [])
+              (match tag with | some t => [.assigning t] | none => []) ++ a.ext.map (fun e => .copy e.1)
   | .undeclare a =>
     match a.tag with
     | none => (sayUndeclareVersion nst a a.ver m).1
